@@ -7,6 +7,7 @@ mod c06;
 mod c07;
 mod c09;
 mod c18;
+mod staking;
 
 pub fn run(ctx: &Ctx) -> Option<Report> {
     Some(match ctx.prop.as_str() {
@@ -14,6 +15,7 @@ pub fn run(ctx: &Ctx) -> Option<Report> {
         "C07" => c07::run(ctx),
         "C09" => c09::run(ctx),
         "C18" => c18::run(ctx),
+        "C14" | "C15" | "C16" => staking::run(ctx),
         _ => return None,
     })
 }
@@ -25,6 +27,7 @@ pub fn replay(ctx: &Ctx, doc: &Value) -> Option<Report> {
         "C07" => c07::replay(ctx, w),
         "C09" => c09::replay(ctx, w),
         "C18" => c18::replay(ctx, w),
+        "C14" | "C15" | "C16" => staking::replay(ctx, w),
         _ => return None,
     })
 }
